@@ -256,52 +256,58 @@ def cterm(e, depth=0):
     return "COther " + cs(k or "?")
 
 
-def terminates(st):
-    """does the statement always leave the function by `return` (last statement of a block / a return itself)"""
+def terminates(st, jumps=True):
+    """does the statement always leave the block: by `return`, or (jumps=True) by `break` / `continue`, which leave the rest of
+    the enclosing loop body (last statement of a block / the statement itself)"""
     if not isinstance(st, dict):
         return None
     if st.get("kind") == "ReturnStmt":
         return st
+    if jumps and st.get("kind") in ("BreakStmt", "ContinueStmt"):
+        return st
     if st.get("kind") == "CompoundStmt" and st.get("inner"):
-        return terminates(st["inner"][-1])
+        return terminates(st["inner"][-1], jumps)
     return None
 
 
 def is_error_return(ret):
+    if ret.get("kind") != "ReturnStmt":
+        return False                 # break / continue: what follows in the loop body is conditional, never an error exit
     txt = render((ret.get("inner") or [None])[0]) if ret.get("inner") else ""
     return any(x in txt for x in ("make_error", "report_error", "nullptr", "err", "kInvalidId", "kOutOfMemory"))
 
 
-def exits_of(st):
-    """guard components that hold for everything AFTER statement st in the same block because st may return early"""
+def exits_of(st, jumps=True):
+    """guard components that hold for everything AFTER statement st in the same block because st may leave the block early
+    (return; with jumps=True also break / continue, which only matter inside the loop body they belong to)"""
     if not isinstance(st, dict):
         return ()
     k = st.get("kind")
     inner = [c for c in (st.get("inner") or []) if isinstance(c, dict)]
     if k == "IfStmt" and len(inner) in (2, 3):
         out = ()
-        r1 = terminates(inner[1])
+        r1 = terminates(inner[1], jumps)
         if r1 is not None:
             out += ("GErrExit",) if is_error_return(r1) else ("GExit (%s) false" % cterm(inner[0]),)
         else:
-            out += exits_of(inner[1])
+            out += exits_of(inner[1], jumps)
         if len(inner) == 3:
-            r2 = terminates(inner[2])
+            r2 = terminates(inner[2], jumps)
             if r2 is not None:
                 out += ("GErrExit",) if is_error_return(r2) else ("GExit (%s) true" % cterm(inner[0]),)
         return out
     if k == "DoStmt" and len(inner) >= 2 and render(inner[1]) in ("0", "false"):
-        return exits_of(inner[0])
+        return exits_of(inner[0], jumps)
     if k == "CompoundStmt":
         out = ()
         for c in inner:
-            out += exits_of(c)
+            out += exits_of(c, jumps)
         return out
     if k in ("WhileStmt", "ForStmt", "DoStmt", "CXXForRangeStmt") and inner:
         # a return inside a loop body: what follows the loop is only reached when no iteration took that exit
         body = inner[-1] if k != "DoStmt" else inner[0]
         out = ()
-        for x in exits_of(body):
+        for x in exits_of(body, False):      # break / continue of the loop do not leave it for what follows the loop
             out += ("GErrExit",) if x == "GErrExit" else ('GOther "loop-exit"',)
         return tuple(dict.fromkeys(out))
     return ()
